@@ -4,7 +4,7 @@
 (* pass machine.  Checked: a build that ends "ok" is a fixed point of the reference       *)
 (* semantics (no value of an earlier pass survives), and the loop ends within MaxPass.    *)
 EXTENDS Asm
-CONSTANTS MaxLen, MaxLen2, MaxPass, Origin
+CONSTANTS MaxLen, MaxLen2, MaxLen3, MaxLen4, MaxPass, Origin, Shrinking
 
 N(n) == [k |-> "num", n |-> n, radix |-> "dec", lz |-> 0]
 Id(p) == [k |-> "id", name |-> JoinPath(p), path |-> p, mod |-> ""]
@@ -40,6 +40,28 @@ Alphabet2 ==
         [k |-> "const", name |-> "c", e |-> Plus(Id(<<"a">>), 1), sid |-> "0"]}
 Prelude2 == <<[k |-> "defseg", name |-> "s1", start |-> N(Origin), hasPc |-> FALSE, pc |-> N(0), sid |-> "d1"],
               [k |-> "defseg", name |-> "s2", start |-> N(254), hasPc |-> TRUE, pc |-> N(512), sid |-> "d2"]>>
+(* a third family: `.text' with interpolated symbols just below 100, where one more byte makes the decimal spelling of an
+   address one character longer.  With Shrinking = TRUE a constant that *decreases* as its label moves up is added: such
+   programs may have no fixed point at all (the layout oscillates), which only the pass bound can end. *)
+Txt(n) == [k |-> "text", enc |-> "", e |-> [k |-> "istr", parts |-> <<[ref |-> n, path |-> <<n>>]>>], sid |-> "0"]
+Alphabet3 ==
+     {Label(n) : n \in Names} \cup {Txt(n) : n \in Names}
+  \cup {Insn("nop", "imp", N(0)), Insn("lda", "dir", Id(<<"b">>)), [k |-> "data", w |-> 1, es |-> <<IdM(<<"a">>, "<")>>, sid |-> "0"]}
+  \cup (IF Shrinking THEN {[k |-> "const", name |-> "c", e |-> [k |-> "bin", op |-> "-", l |-> N(109), r |-> Id(<<"b">>)], sid |-> "0"], Txt("c")} ELSE {})
+Programs3 == UNION {[1..n -> Alphabet3] : n \in 1..MaxLen3}
+SetPc3 == [k |-> "setpc", e |-> N(97), sid |-> "org"]
+(* a fourth family: a condition that is a forward reference.  While it is unknown the `.if' is skipped, so the macro
+   invocations after it are numbered differently than in the final pass: symbols of `$macro_0' at the top level exist in an
+   early pass only.  With NoPrune substituted for PruneStale (the pinned reading) FixedPoint is violated by such a program. *)
+MacroM == [k |-> "macrodef", name |-> "m", params |-> <<>>, sid |-> "0", body |-> <<Label("l"), Insn("nop", "imp", N(0))>>]
+CallM == [k |-> "macrocall", name |-> "m", args |-> <<>>, sid |-> "0"]
+Gt0(n) == [k |-> "bin", op |-> ">", l |-> Id(<<n>>), r |-> N(0)]
+Alphabet4 ==
+  {Label("a"), CallM, Insn("lda", "dir", Id(<<"a">>)),
+   [k |-> "braces", sid |-> "$B", body |-> <<[k |-> "if", e |-> Gt0("a"), then |-> <<CallM>>, hasElse |-> FALSE, else |-> <<>>, sid |-> "0"]>>],
+   [k |-> "if", e |-> Gt0("a"), then |-> <<CallM>>, hasElse |-> TRUE, else |-> <<Insn("nop", "imp", N(0))>>, sid |-> "0"]}
+Programs4 == UNION {[1..n -> Alphabet4] : n \in 1..MaxLen4}
+NoPrune == FALSE
 Programs == UNION {[1..n -> Alphabet] : n \in 1..MaxLen}
 Programs2 == UNION {[1..n -> Alphabet2] : n \in 1..MaxLen2}
 Sid(p) == [i \in 1..Len(p) |-> [p[i] EXCEPT !.sid = ToString(i)]]
@@ -48,7 +70,8 @@ SetPc == [k |-> "setpc", e |-> N(Origin), sid |-> "org"]
 VARIABLES prog, m
 vars == <<prog, m>>
 
-Init == /\ prog \in {<<SetPc>> \o Sid(p) : p \in Programs} \cup {Prelude2 \o Sid(p) : p \in Programs2}
+Init == /\ prog \in {<<SetPc>> \o Sid(p) : p \in Programs} \cup {Prelude2 \o Sid(p) : p \in Programs2} \cup {<<SetPc3>> \o Sid(p) : p \in Programs3}
+                  \cup {<<MacroM, SetPc>> \o Sid(p) : p \in Programs4}
         /\ m = MInit
 Pass == /\ m.phase = "run" /\ m.pass < MaxPass
         /\ m' = Decide(m, RunPass(prog, m, TRUE), 8192)
